@@ -899,4 +899,125 @@ Proof.
       * exists []. split; [exact I|]. split; [cbn [t_caps t_capnumlist t_captop t_capnames t_caplist]; intros k; split; [auto|intros [Hx|[]]; exact Hx]|]. cbn [t_caps t_capnumlist t_captop t_capnames t_caplist]. assumption.
 Qed.
 
+
+(* ================= every number held by Capnames is a group number ================= *)
+
+Definition vals_ok (t : ptree) : Prop :=
+  match t_capnames t with
+  | Some m => forall s k, aget s m = Some k -> In k (t_caps t)
+  | None => True
+  end.
+
+Lemma aget_aset_cases : forall x s v m w, aget x (aset s v m) = Some w -> (x = s /\ w = v) \/ aget x m = Some w.
+Proof.
+  intros x s v m w H. destruct (list_eq_dec Z.eq_dec x s) as [->|Hne].
+  - rewrite aget_aset_same in H. injection H as <-. now left.
+  - rewrite aget_aset_other in H by assumption. now right.
+Qed.
+
+Lemma fill_ordered_vals : forall ecma js l m l2 m2, fill_ordered ecma js l m = (l2, m2) ->
+  forall s v, aget s m2 = Some v -> aget s m = Some v \/ In v js.
+Proof.
+  intros ecma js. induction js as [|j js IH]; intros l m l2 m2 H s v Hv.
+  - cbn in H. injection H as <- <-. now left.
+  - destruct l as [|x l]; [cbn in H; injection H as <- <-; now left|].
+    cbn [fill_ordered] in H. destruct ecma.
+    + destruct (fill_ordered true js l m) as [r m'] eqn:E. injection H as <- <-.
+      destruct (IH _ _ _ _ E s v Hv); [now left|right; now right].
+    + set (s' := match x with [] => itoa j | _ => x end) in *.
+      set (m1 := if amem s' m then m else aset s' j m) in *.
+      destruct (fill_ordered false js l m1) as [r m'] eqn:E. injection H as <- <-.
+      destruct (IH _ _ _ _ E s v Hv) as [H1|H1]; [|right; now right].
+      subst m1. destruct (amem s' m); [now left|].
+      destruct (aget_aset_cases _ _ _ _ _ H1) as [[_ ->]|H2]; [right; now left|now left].
+Qed.
+
+Lemma merge_vals : forall js rest next m l m', merge_names js rest next m = Ok (l, m') ->
+  forall s v, aget s m' = Some v -> aget s m = Some v \/ In v js.
+Proof.
+  induction js as [|j js IH]; intros rest next m l m' H s v Hv.
+  - cbn in H. injection H as <- <-. now left.
+  - cbn [merge_names] in H. destruct (next =? j).
+    + destruct rest as [|x rest']; [discriminate|].
+      destruct (merge_names js rest' _ m) as [[l1 m1]| | |] eqn:E; try discriminate. cbn [bind] in H.
+      injection H as <- <-. destruct (IH _ _ _ _ _ E s v Hv); [now left|right; now right].
+    + destruct (merge_names js rest next (aset (itoa j) j m)) as [[l1 m1]| | |] eqn:E; try discriminate. cbn [bind] in H.
+      injection H as <- <-. destruct (IH _ _ _ _ _ E s v Hv) as [H1|H1]; [|right; now right].
+      destruct (aget_aset_cases _ _ _ _ _ H1) as [[_ ->]|H2]; [right; now left|now left].
+Qed.
+
+Lemma Forall2_aget_in : forall (names : list name) ks m s v,
+  Forall2 (fun s k => aget s m = Some k) names ks -> In s names -> aget s m = Some v -> In v ks.
+Proof.
+  intros names ks m s v HF. induction HF as [|x k names ks Hx HF IH]; intros Hi Hv; [destruct Hi|].
+  destruct Hi as [->|Hi]; [left; congruence|right; auto].
+Qed.
+
+Theorem assign_ordered_vals : forall ecma c t, pinv true c -> assign_ordered ecma c = Ok t -> vals_ok t.
+Proof.
+  intros ecma c t Hinv H.
+  destruct (mco_dense c Hinv) as [Hcaps [Htop Hcnt]].
+  destruct (pi_mco _ _ Hinv eq_refl) as [_ [_ Hslots]].
+  assert (Hnl : capnumlist_of c = None).
+  { unfold capnumlist_of. rewrite Hcnt, Htop. now rewrite Z.ltb_irrefl. }
+  assert (Hold : forall s v, aget s (names_of c) = Some v -> In v (c_caps c)).
+  { intros s v Hv. specialize (Hslots _ _ Hv). rewrite Hcaps. apply zrange_In. lia. }
+  assert (Hjs : forall v, In v (zrange (c_capcount c)) -> In v (c_caps c)) by (intros v Hv; now rewrite Hcaps, <- Hcnt).
+  unfold assign_ordered in H. rewrite Hnl in H.
+  destruct (c_capnames c) as [m|] eqn:Em.
+  - assert (Hm : names_of c = m) by (unfold names_of; now rewrite Em).
+    destruct (place_names (c_capnamelist c) None m _) as [l1| | |]; try discriminate. cbn [bind] in H.
+    destruct (fill_ordered ecma (zrange (c_capcount c)) l1 m) as [l2 m2] eqn:Ef. injection H as <-.
+    unfold vals_ok. cbn. intros s k Hk.
+    destruct (fill_ordered_vals _ _ _ _ _ _ Ef s k Hk) as [H1|H1]; [apply (Hold s); now rewrite Hm|auto].
+  - destruct (negb ecma && (c_capcount c =? c_captop c)); [injection H as <-; exact I|].
+    destruct (place_names (c_capnamelist c) None [] _) as [l1| | |]; try discriminate. cbn [bind] in H.
+    destruct (fill_ordered ecma (zrange (c_capcount c)) l1 []) as [l2 m2] eqn:Ef. injection H as <-.
+    unfold vals_ok. cbn. intros s k Hk.
+    destruct (fill_ordered_vals _ _ _ _ _ _ Ef s k Hk) as [H1|H1]; [discriminate|auto].
+Qed.
+
+Theorem assign_default_vals : forall c t,
+  pinv false c -> Z.max (c_autocap c) (c_captop c) + Z.of_nat (length (c_capnamelist c)) < maxint32 ->
+  assign_default c = Ok t -> vals_ok t.
+Proof.
+  intros c t Hinv Hb H.
+  pose proof Hinv as [Hci Hauto Hun Hkeys Hnd Hlex Hsome Htopb _].
+  destruct (assign_names_spec (c_capnamelist c) c Hci Hauto Hun Hnd) as [A1 [A2 [A3 [A4 [A5 [A6 [ks [A7 [A8 A9]]]]]]]]].
+  { intros s Hs. now rewrite Hkeys. }
+  { assumption. }
+  cbn zeta in *.
+  unfold assign_default in H.
+  set (c1 := match c_capnames c with Some _ => assign_names (c_capnamelist c) c | None => c end) in *.
+  assert (Hjs : match capnumlist_of c1 with Some l => l | None => zrange (c_capcount c1) end = c_caps c1 /\ capsinv c1).
+  { assert (Hc1 : capsinv c1) by (subst c1; destruct (c_capnames c); assumption).
+    split; [|assumption].
+    destruct (capnumlist_of c1) eqn:E; [unfold capnumlist_of in E; destruct (c_capcount c1 <? c_captop c1); congruence|].
+    symmetry. apply (dense_caps c1 Hc1 E). }
+  destruct Hjs as [Hjs Hc1].
+  destruct (c_capnames c1) as [m1|] eqn:Em1.
+  - (* a names table: Capnames = merge of names_of c1 *)
+    assert (Hvals1 : forall s v, aget s m1 = Some v -> In v (c_caps c1)).
+    { intros s v Hv. destruct (c_capnames c) as [m0|] eqn:Em0.
+      - subst c1. assert (Hn1 : names_of (assign_names (c_capnamelist c) c) = m1) by (unfold names_of; now rewrite Em1).
+        rewrite <- Hn1 in Hv. apply A9. right.
+        apply (Forall2_aget_in _ _ _ s v A7); [|assumption].
+        apply aget_some_key in Hv. rewrite A3, Hkeys in Hv. assumption.
+      - subst c1. congruence. }
+    destruct (capnumlist_of c1) as [nl|] eqn:Enl.
+    + destruct (c_capnamelist c1) as [|s0 r0]; [discriminate|]. cbn [bind] in H.
+      destruct (merge_names nl (s0 :: r0) _ m1) as [[l m']| | |] eqn:Emg; try discriminate. cbn [bind] in H.
+      injection H as <-. unfold vals_ok. cbn. intros s k Hk.
+      destruct (merge_vals _ _ _ _ _ _ Emg s k Hk) as [H1|H1]; [eauto|now rewrite <- Hjs].
+    + destruct (c_capnamelist c1) as [|s0 r0]; [discriminate|]. cbn [bind] in H.
+      destruct (merge_names (zrange (c_capcount c1)) (s0 :: r0) _ m1) as [[l m']| | |] eqn:Emg; try discriminate. cbn [bind] in H.
+      injection H as <-. unfold vals_ok. cbn. intros s k Hk.
+      destruct (merge_vals _ _ _ _ _ _ Emg s k Hk) as [H1|H1]; [eauto|now rewrite <- Hjs].
+  - destruct (capnumlist_of c1) as [nl|] eqn:Enl.
+    + cbn [bind] in H. destruct (merge_names nl [] (-1) []) as [[l m']| | |] eqn:Emg; try discriminate. cbn [bind] in H.
+      injection H as <-. unfold vals_ok. cbn. intros s k Hk.
+      destruct (merge_vals _ _ _ _ _ _ Emg s k Hk) as [H1|H1]; [discriminate|now rewrite <- Hjs].
+    + injection H as <-. exact I.
+Qed.
+
 End WithLim.
